@@ -431,4 +431,12 @@ def selftest():
           "            this_entry = rows[station_id] if rows.get(station_id) else immutables.Map()\n            updated = DictOps.add_to_dict(rows, station_id, this_entry if charger_id in this_entry else this_entry.set(charger_id, price))", rule="DU.latest-wins"),
         V("twin-admit-mirror", URF, "            stop = value < current_sim_time\n            return stop\n\n        result", "            stop = not (value >= current_sim_time)\n            return stop\n\n        result", kind="twin"),
         V("twin-expiry-mirror", URF, "        elif this_req_cancel_time <= sim.sim_time:", "        elif sim.sim_time >= this_req_cancel_time:", kind="twin"),
-    ]
+    ] + _auto()
+
+
+def _auto():
+    from ..loader import Repo
+    from .. import autovariants as av
+    return av.compare_variants(Repo(), [(URF, "UpdateRequestsFromFile.update.stop_condition"), (CPU, "ChargingPriceUpdate.update.stop_condition"),
+                                        (URS, "UpdateRequestsSampling.update.stop_condition"), (CAN, "CancelRequests.update._remove_from_sim")])
+
